@@ -28,6 +28,19 @@ def main(argv):
             from . import designfam
 
             designfam.attach_walk(rep, PROP, args.tier, d, args.jobs)
+            # the same exploration on graphs that are HELD while a copy of them, made through the dictionary form, is restructured further:
+            # every path of the original must still be there in the held graph (record.py, fork_between)
+            import os
+
+            fin = rb.domain_inputs(args.tier, args.seed + 3, "XR", scale=0.25 if args.tier == "quick" else 0.5)
+            res3 = rb.record_domain(fin, os.path.join(d, "fork"), jobs=args.jobs, shards=args.jobs, stages=True, reload="fork", heavy=70)
+            out3 = explore(res3, args.jobs)
+            for v in out3["viol"]:
+                v["id"] = dict(v["id"], fork=True)
+            out["viol"] = list(out["viol"]) + list(out3["viol"])
+            out["states"] += out3["states"]
+            out["generated"] += out3["generated"]
+            rep.coverage["held_while_copy_is_restructured"] = {"behaviours": sum(r["ncases"] for r in res3), "product_states": out3["states"]}
     finally:
         tlc.cleanup(d)
     for v in out["viol"]:
